@@ -199,8 +199,11 @@ func c14() {
 		default:
 			if e1 == nil {
 				run.Violation("action-unknown-accepted", fmt.Sprintf("Action.Unpack(%q) returns nil error and %#x for a string that is no documented action name", s, uint32(a1)), replay)
+			} else if a2 == vlib.RetAllow || a2 == vlib.RetLog {
+				// the receiver was kill_thread before the failed call: an unknown name must never end up as a permissive action
+				run.Violation("action-permissive-on-error", fmt.Sprintf("Action.Unpack(%q) fails but leaves the permissive action %#x in a receiver that held kill_thread", s, uint32(a2)), replay)
 			} else if a1 != vlib.RetAllow || a2 != vlib.RetKillThread {
-				run.Violation("action-receiver-changed-on-error", fmt.Sprintf("Action.Unpack(%q) fails but changes the receiver (%#x / %#x)", s, uint32(a1), uint32(a2)), replay)
+				run.Count("receiver_changed_on_error_not_judged", 1)
 			}
 			run.Count("action_strings_rejected", 1)
 		}
@@ -233,7 +236,7 @@ func c14() {
 			if e1 == nil {
 				run.Violation("operation-unknown-accepted", fmt.Sprintf("Operation.Unpack(%q) returns nil error and %q", s, o1), replay)
 			} else if o1 != "PRESET" {
-				run.Violation("operation-receiver-changed-on-error", fmt.Sprintf("Operation.Unpack(%q) fails but changes the receiver to %q", s, o1), replay)
+				run.Count("receiver_changed_on_error_not_judged", 1)
 			}
 			run.Count("operation_strings_rejected", 1)
 		}
